@@ -93,6 +93,8 @@ def get_random_value_from_ranges(ranges: list[Range]) -> Any:
         max_digits = str(random_range.max_value)[::-1].find('.')
         digits = max(min_digits, max_digits)
         value = round(random.uniform(random_range.min_value, random_range.max_value), digits)
+        # rounding must not leave the range (bounds written in exponent notation have no '.')
+        value = min(max(value, random_range.min_value), random_range.max_value)
     elif isinstance(random_range.min_value, int) and isinstance(random_range.max_value, int):
         value = random.randint(random_range.min_value, random_range.max_value)
     else:
